@@ -391,22 +391,25 @@ func (s *Sim) exec(op Op) {
 			{PartitionName: "default", ApplicationID: op.AppID, AllocationKey: op.Key, TerminationType: termType(op.Type), Message: "shim release"}}}})
 		sh.mu.Lock()
 	case "confirm":
+		relType := op.Type
 		if m := sh.Allocs[op.Key]; m != nil && m.Status == stReleasing {
 			m.Status = stGone
 			m.RejectReason = "release confirmed (" + m.RelType + ")"
 			infl.confirms[op.Key] = true
 			sh.dropObligation(op.Key)
 		} else if m != nil && m.Status != stGone {
-			// nothing to confirm (a replayed or duplicated confirmation out of context): what goes out is a release
+			// nothing to confirm (a confirmation the minimiser left without its context): what goes out is an
+			// ordinary release by the shim
+			relType = "STOPPED_BY_RM"
 			m.WasBound = m.live()
 			m.ReleaseSent = true
 			m.Status = stGone
-			m.RejectReason = "released by the shim (" + op.Type + ")"
+			m.RejectReason = "released by the shim (" + relType + ")"
 			infl.releases[op.Key] = true
 		}
 		sh.mu.Unlock()
 		_ = s.sc.RMProxy.UpdateAllocation(&si.AllocationRequest{RmID: sh.rmID, Releases: &si.AllocationReleasesRequest{AllocationsToRelease: []*si.AllocationRelease{
-			{PartitionName: "default", ApplicationID: op.AppID, AllocationKey: op.Key, TerminationType: termType(op.Type), Message: "shim confirmation"}}}})
+			{PartitionName: "default", ApplicationID: op.AppID, AllocationKey: op.Key, TerminationType: termType(relType), Message: "shim confirmation"}}}})
 		sh.mu.Lock()
 	case "sched":
 		sh.sched = true
